@@ -772,7 +772,8 @@ class GridBase(metaclass=ABCMeta):
             :class:`~numpy.ndarray`: The respective coordinates with periodic
             boundary conditions applied.
         """
-        point = np.asarray(point, dtype=np.double)
+        # copy the points, since coordinates are adjusted in-place below
+        point = np.array(point, dtype=np.double)
         if point.size == 0:
             return np.zeros((0, self.num_axes))
 
